@@ -19,7 +19,9 @@ import (
 	"sync"
 
 	"github.com/markkurossi/mpc/circuit"
+	"github.com/markkurossi/mpc/compiler"
 	"github.com/markkurossi/mpc/compiler/ssa"
+	"github.com/markkurossi/mpc/compiler/utils"
 )
 
 func init() { commands["c05"] = c05Main }
@@ -99,7 +101,17 @@ func flattenInputs(circ *circuit.Circuit, vals []*big.Int) []*big.Int {
 // c05OneV: one program, one input pair (one string per argument member), both modes
 func c05OneV(res *Result, src string, xv, yv []string, record *[]stEv, seedv uint64, wire ...*[]swEv) {
 	xs, ys := strings.Join(xv, ","), strings.Join(yv, ",")
-	circ, err := compileMPCL(src, nil)
+	// unsized arguments (uint, []byte ...) are instantiated from the sizes of the inputs, as apps/garbled does it:
+	// each party sizes its own input, the garbler learns the peer's sizes
+	var sizes [][]int
+	if sx, err := circuit.InputSizes(xv); err == nil {
+		if sy, err := circuit.InputSizes(yv); err == nil {
+			sizes = [][]int{sx, sy}
+		}
+	}
+	params := utils.NewParams()
+	params.MPCLCErrorLoc = false
+	circ, _, err := compiler.New(params).Compile(src, sizes)
 	if err != nil {
 		res.Sample = "compile: " + err.Error()
 		res.Class = "rejected"
@@ -148,7 +160,7 @@ func c05OneV(res *Result, src string, xv, yv []string, record *[]stEv, seedv uin
 			*record = append(*record, ev)
 		}
 	}
-	sr := runStream(src, xv, yv, sessOpts{ot: "co", randSeed: seedv, corruptAt: -1, record: len(wire) > 0 && wire[0] != nil})
+	sr := runStream(src, xv, yv, sessOpts{ot: "co", randSeed: seedv, corruptAt: -1, record: len(wire) > 0 && wire[0] != nil}, sizes)
 	if record != nil {
 		ssa.VerifStreamHook = nil
 		c05HookMu.Unlock()
@@ -498,6 +510,27 @@ func c05Main(args []string) error {
 			idx++
 			out.put(res)
 		}
+	}
+	// unsized arguments: main is instantiated from the sizes of the two inputs
+	for k := 0; k < 6; k++ {
+		res := &Result{Case: idx, Nontrivial: true}
+		la, lb := 1+rng.Intn(40), 1+rng.Intn(40)
+		src := pgUnsizedTemplates[k%len(pgUnsizedTemplates)]
+		xv, yv := []string{pgHex(rng, la)}, []string{pgHex(rng, lb)}
+		if strings.Contains(src, "a, b uint") {
+			yv = []string{pgHex(rng, la)} // both sides of an arithmetic operator need one width
+		}
+		c05OneV(res, src, xv, yv, nil, uint64(seed())<<32+uint64(idx))
+		if res.Class == "compared" {
+			res.Class = "unsized-template"
+		} else if res.Class == "rejected" {
+			res.drift("unsized template does not compile for inputs %v | %v: %v", xv, yv, res.Sample)
+		}
+		if len(res.Viol) > 0 {
+			res.Sample = src
+		}
+		idx++
+		out.put(res)
 	}
 	for li, src := range pgLivenessPrograms() {
 		bits := 8
